@@ -121,8 +121,8 @@ def to_hashable(data: Any) -> Any:
     if isinstance(data, list):
         return tuple(map(to_hashable, data))
     elif isinstance(data, dict):
-        sorted_keys = sorted(data)
-        return tuple(sorted_keys + [to_hashable(data[k]) for k in sorted_keys])
+        # frozenset: no key ordering needed, and {} is not conflated with []
+        return frozenset((k, to_hashable(v)) for k, v in data.items())
     else:
         return data
 
